@@ -137,6 +137,15 @@ func (fv *FuncVC) runOnce() {
 		for _, r := range con.Requires {
 			t := entryEnv.tr(r.Expr)
 			fv.reportSpecErrs(entryEnv, r)
+			if con.Implements != "" && !r.FromType && !r.Free {
+				// a function reached through a function-typed value is called under the TYPE's precondition
+				// only: its own requires must follow from it
+				label := r.Label
+				if label == "" {
+					label = fmt.Sprintf("%d", r.Line)
+				}
+				fv.oblige("implements-pre", con.Implements+"#"+label, fv.propsFor(r), t.T, r.Src, "")
+			}
 			fv.assumeGlobal(t.T)
 		}
 		if con.AllocBound != "" {
@@ -836,6 +845,21 @@ func (g *Gen) callWrites(c *ssa.CallCommon, cells map[*ssa.Alloc]bool, heaps map
 			}
 		}
 	default:
+		if k := g.funcTypeKey(c.Value.Type()); k != "" {
+			if tc := g.spec.Contracts[k]; tc.HasMod {
+				for h := range g.contractModNames(tc, nil, c) {
+					heaps[h] = true
+				}
+				return
+			}
+			// no declared frame: the union of what the implementers write
+			for _, f := range g.funcTypeImpl[k] {
+				for h := range g.modOf(f) {
+					heaps[h] = true
+				}
+			}
+			return
+		}
 		// unknown function value (A-CALLBACK): writes memory reachable from its arguments
 		g.extWrites(c, heaps)
 	}
